@@ -104,6 +104,7 @@ type conn struct {
 
 	// guarded by srv.mu
 	closed       bool
+	silent       bool // dropped by the server while idle, and the driver has not noticed yet (DropIdleSilently)
 	tx           *txn
 	autocommit   bool
 	lastInsertID int64
@@ -146,6 +147,26 @@ func (c *conn) isClosed() bool {
 	return c.closed
 }
 
+// deadErr: nil for a live connection.  A connection the server dropped silently fails its next use the way
+// go-sql-driver/mysql does (the request is written, the answer is EOF): mysql.ErrInvalidConn, which database/sql
+// does not retry; after that, and for connections broken otherwise, driver.ErrBadConn.
+func (c *conn) deadErr() error {
+	c.srv.mu.Lock()
+	defer c.srv.mu.Unlock()
+	return c.deadErrLocked()
+}
+
+func (c *conn) deadErrLocked() error {
+	if !c.closed {
+		return nil
+	}
+	if c.silent {
+		c.silent = false
+		return mysql.ErrInvalidConn
+	}
+	return driver.ErrBadConn
+}
+
 // killLocked breaks the connection (s.mu held): the server side rolls back what is attached to it.
 func (c *conn) killLocked() {
 	if c.closed {
@@ -183,14 +204,24 @@ func (c *conn) Ping(ctx context.Context) error {
 	return ctx.Err()
 }
 
+// ResetSession is where a network driver notices that the server dropped an idle connection (go-sql-driver/mysql's
+// connection check): driver.ErrBadConn, and database/sql takes another connection.
 func (c *conn) ResetSession(ctx context.Context) error {
-	if c.isClosed() {
+	c.srv.mu.Lock()
+	defer c.srv.mu.Unlock()
+	if c.closed {
+		c.silent = false
 		return driver.ErrBadConn
 	}
 	return nil
 }
 
-func (c *conn) IsValid() bool { return !c.isClosed() }
+// IsValid: like go-sql-driver/mysql, true until the driver itself has seen the connection fail
+func (c *conn) IsValid() bool {
+	c.srv.mu.Lock()
+	defer c.srv.mu.Unlock()
+	return !c.closed || c.silent
+}
 
 func (c *conn) CheckNamedValue(nv *driver.NamedValue) (err error) {
 	nv.Value, err = converter{}.ConvertValue(nv.Value)
@@ -200,8 +231,8 @@ func (c *conn) CheckNamedValue(nv *driver.NamedValue) (err error) {
 func (c *conn) Begin() (driver.Tx, error) { return c.begin(context.Background(), false) }
 
 func (c *conn) begin(ctx context.Context, readOnly bool) (driver.Tx, error) {
-	if c.isClosed() {
-		return nil, driver.ErrBadConn
+	if err := c.deadErr(); err != nil {
+		return nil, err
 	}
 	q := "START TRANSACTION"
 	if readOnly {
@@ -214,8 +245,8 @@ func (c *conn) begin(ctx context.Context, readOnly bool) (driver.Tx, error) {
 }
 
 func (c *conn) BeginTx(ctx context.Context, opts driver.TxOptions) (driver.Tx, error) {
-	if c.isClosed() {
-		return nil, driver.ErrBadConn
+	if err := c.deadErr(); err != nil {
+		return nil, err
 	}
 	if err := ctx.Err(); err != nil {
 		return nil, err
@@ -332,8 +363,8 @@ func namedValueToValue(named []driver.NamedValue) ([]driver.Value, error) {
 
 // textExec is the COM_QUERY path: without arguments, or with arguments interpolated client side.
 func (c *conn) textExec(ctx context.Context, query string, args []driver.Value) (*runOut, error) {
-	if c.isClosed() {
-		return nil, driver.ErrBadConn
+	if err := c.deadErr(); err != nil {
+		return nil, err
 	}
 	var nargs []interface{}
 	if len(args) != 0 {
@@ -407,8 +438,8 @@ func (c *conn) QueryContext(ctx context.Context, query string, args []driver.Nam
 }
 
 func (c *conn) Prepare(query string) (driver.Stmt, error) {
-	if c.isClosed() {
-		return nil, driver.ErrBadConn
+	if err := c.deadErr(); err != nil {
+		return nil, err
 	}
 	p, err := parseSQL(query)
 	if err != nil {
